@@ -18,7 +18,7 @@ RULE = ("Exhaustive grid: one environment of n in 0..30 rows x every composition
         "request still fits, the last fold holding the remainder; same seed => identical output, 8 seeds => at least two "
         "different outputs (n >= 6); inputs byte-identical afterwards; ValueError iff |sum r - 1| > 1e-6, accepted whenever the "
         "exact rational sum is 1. Non-trivial = sum_i round(n*r_i) != n, or float(sum r) != 1.0 while the rational sum is 1, or "
-        "an off-by-small ratio vector.")
+        "an off-by-small ratio vector. Also: 7..100 folds incl. k equal folds, empty environment lists, int64 data above 2^53 and float32 data, eight seeds (0, 42, 2^32-1, ...) pairwise distinct on >= 17 rows.")
 ASSUMPTIONS = [
     "half-way cases accept either rounding direction; |sum r - 1| in (1e-9, 1e-6] is not generated (the statement leaves it open)",
     "one shuffle shared by all environments is allowed (not demanded either way)",
